@@ -233,6 +233,71 @@ def conj_forms(t: T) -> Set[tuple]:
 LAST_DIFF: Dict[str, set] = {}
 
 
+def _var_of(f):
+    """(variable key, negated?) for an atom form: complementary comparisons share one variable."""
+    if f[0] == "not":
+        k, n = _var_of(f[1])
+        return k, not n
+    if f[0] == "cmp":
+        _, P, N, k, op = f
+        if op == "!=":
+            return ("cmp", P, N, k, "=="), True
+        if op == "==":
+            return f, False
+        if (N, P) < (P, N):
+            # Y op 0 with Y = P - N + k; rewrite over -Y:  Y > 0 == not(-Y >= 0),  Y >= 0 == not(-Y > 0)
+            return ("cmp", N, P, -k, ">=" if op == ">" else ">"), True
+        return f, False
+    return f, False
+
+
+def _bool_tree(t: T, leaves: Dict[tuple, int]):
+    """nested ('and'|'or'|'not'|'var', ...) over atom variables; jnp.all / jnp.any wrappers of a formula are looked through"""
+    s = strip_cast(t)
+    if s.kind == "bin" and s.args[0] in ("&", "|"):
+        return ("and" if s.args[0] == "&" else "or", _bool_tree(s.args[1], leaves), _bool_tree(s.args[2], leaves))
+    if s.kind == "bool":
+        out = _bool_tree(s.args[1][0], leaves)
+        for x in s.args[1][1:]:
+            out = (s.args[0], out, _bool_tree(x, leaves))
+        return out
+    n = negand(s)
+    if n is not None and atom_form(s)[0] != "cmp":
+        return ("not", _bool_tree(n, leaves))
+    if ext_name(s) in ("jax.numpy.all", "jax.numpy.any") and len(s.args[1]) == 1 and strip_cast(s.args[1][0]).kind in ("bin", "bool", "un"):
+        return _bool_tree(s.args[1][0], leaves)
+    key, neg = _var_of(atom_form(s))
+    i = leaves.setdefault(key, len(leaves))
+    return ("not", ("var", i)) if neg else ("var", i)
+
+
+def _ev(tr, bits) -> bool:
+    if tr[0] == "var":
+        return bits[tr[1]]
+    if tr[0] == "not":
+        return not _ev(tr[1], bits)
+    a, b = _ev(tr[1], bits), _ev(tr[2], bits)
+    return (a and b) if tr[0] == "and" else (a or b)
+
+
+def same_atoms_different_connectives(a: T, b: T) -> Optional[str]:
+    """When both formulas are built from the SAME atoms (complementary comparisons counted as one), their truth
+    tables decide: returns a description of a distinguishing row, or None (equivalent / not comparable)."""
+    import itertools
+    la: Dict[tuple, int] = {}
+    ta = _bool_tree(a, la)
+    lb: Dict[tuple, int] = dict(la)
+    tb = _bool_tree(b, lb)
+    la2: Dict[tuple, int] = dict(lb)
+    ta = _bool_tree(a, la2)
+    if len(la2) != len(la) or len(lb) != len(la) or not 2 <= len(la) <= 10:
+        return None
+    for bits in itertools.product((False, True), repeat=len(la)):
+        if _ev(ta, bits) != _ev(tb, bits):
+            return f"the two formulas use the same {len(la)} conditions but combine them differently (e.g. they disagree when the conditions are {list(bits)})"
+    return None
+
+
 def compare(mask_old: T, validity: T, action: T) -> Tuple[Optional[bool], str]:
     """True = equivalent after normalisation; False = definitely different (same quantities, different
     strictness / constant / polarity); None = cannot be aligned."""
@@ -241,6 +306,12 @@ def compare(mask_old: T, validity: T, action: T) -> Tuple[Optional[bool], str]:
     B = conj_forms(erase_action_index(validity, action))
     if A == B:
         return True, "same conjuncts after normalisation"
+    try:
+        diff = same_atoms_different_connectives(erase_action_index(mask_old, action), erase_action_index(validity, action))
+    except Exception:
+        diff = None
+    if diff:
+        return False, diff
     sa, sb = {skeleton_of(x) for x in A}, {skeleton_of(x) for x in B}
     if sa == sb:
         diff = sorted(str(x) for x in (A ^ B))
